@@ -278,6 +278,120 @@ theorem recoverInner_stays (a : List Byte) : ∀ (pre b : List Byte) (sk : Bool)
     simp [IS.good, hc, hx.2, hih]
     omega
 
+theorem skipSpaces_semi (a2 : List Byte) : ∀ (pre b : List Byte), (∀ x ∈ a2, x ≠ chSemi) →
+    ∃ p' a3, IS.skipSpaces pre (a2 ++ chSemi :: b) = (p', a3 ++ chSemi :: b) ∧ a3.length ≤ a2.length ∧ (∀ x ∈ a3, x ≠ chSemi) := by
+  induction a2 with
+  | nil =>
+    intro pre b _
+    have h : isSpace chSemi = false := by decide
+    exact ⟨pre, [], by simp [IS.skipSpaces, h], Nat.le_refl _, by simp⟩
+  | cons x a ih =>
+    intro pre b ha
+    by_cases hx : isSpace x = true
+    · obtain ⟨p', a3, h1, h2, h3⟩ := ih (x :: pre) b (fun y hy => ha y (by simp [hy]))
+      exact ⟨p', a3, by simp [IS.skipSpaces, hx, h1], by simp; omega, h3⟩
+    · exact ⟨pre, x :: a, by simp [IS.skipSpaces, hx], Nat.le_refl _, ha⟩
+
+/-- the inner loop of the scan that ends at the first `;`, on any record tail `a ;` (parentheses and apostrophes allowed):
+it ends at the `;` (put back), or behind the first `)` of `a` -/
+theorem recoverInner_first_semi (a : List Byte) : ∀ (pre b : List Byte) (sk : Bool) (c : Byte) (q : Bool) (len steps fuel : Nat),
+    (∀ x ∈ a, x ≠ chSemi) → c ≠ chRParen → a.length + 1 ≤ fuel →
+    (∃ p' l' st', recoverInner true false fuel ⟨pre, a ++ chSemi :: b, false, false, sk⟩ c q len steps =
+        .ok (⟨p', chSemi :: b, false, false, sk⟩, chSemi, q, true, l', st')) ∨
+    (∃ p' a2 l' st', recoverInner true false fuel ⟨pre, a ++ chSemi :: b, false, false, sk⟩ c q len steps =
+        .ok (⟨p', a2 ++ chSemi :: b, false, false, sk⟩, chRParen, q, false, l', st') ∧ a2.length < a.length ∧ (∀ x ∈ a2, x ≠ chSemi)) := by
+  induction a with
+  | nil =>
+    intro pre b sk c q len steps fuel _ hc hf
+    obtain ⟨f, rfl⟩ : ∃ f, fuel = f + 1 := ⟨fuel - 1, by omega⟩
+    left
+    refine ⟨pre, len + 1, steps + 1, ?_⟩
+    unfold recoverInner
+    simp [IS.good, IS.get, IS.putback, hc]
+  | cons x a ih =>
+    intro pre b sk c q len steps fuel ha hc hf
+    obtain ⟨f, rfl⟩ : ∃ f, fuel = f + 1 := ⟨fuel - 1, by simp at hf; omega⟩
+    have hx := ha x (by simp)
+    have hget : IS.get ⟨pre, x :: (a ++ chSemi :: b), false, false, sk⟩ = (⟨x :: pre, a ++ chSemi :: b, false, false, sk⟩, some x) := by
+      simp [IS.get, IS.good]
+    by_cases hxp : x = chRParen
+    · subst hxp
+      right
+      obtain ⟨f', rfl⟩ : ∃ f', f = f' + 1 := ⟨f - 1, by simp at hf; omega⟩
+      refine ⟨chRParen :: pre, a, len + 1, steps + 1, ?_, by simp, fun y hy => ha y (by simp [hy])⟩
+      unfold recoverInner
+      simp only [List.cons_append, hget]
+      simp [IS.good, hc, hx]
+      unfold recoverInner
+      simp [IS.good]
+    · rcases ih (x :: pre) b sk x q (len + 1) (steps + 1) f (fun y hy => ha y (by simp [hy])) hxp (by simp at hf; omega) with
+        ⟨p', l', st', h⟩ | ⟨p', a2, l', st', h, h2, h3⟩
+      · left
+        refine ⟨p', l', st', ?_⟩
+        unfold recoverInner
+        simp only [List.cons_append, hget]
+        simp [IS.good, hc, hx, h]
+      · right
+        refine ⟨p', a2, l', st', ?_, by simp; omega, h3⟩
+        unfold recoverInner
+        simp only [List.cons_append, hget]
+        simp [IS.good, hc, hx, h]
+
+/-- the scan that ends at the first `;` never reads past it: on **any** record tail `a ;` — parentheses, apostrophes, white
+space, whatever character `c` the read gave up on — it ends with the `;` next on a good stream -/
+theorem recoverOuter_first_semi (b : List Byte) (sk : Bool) : ∀ (fuel : Nat) (a pre : List Byte) (c : Byte) (q : Bool) (len steps : Nat),
+    (∀ x ∈ a, x ≠ chSemi) → a.length + 2 ≤ fuel →
+    ∃ p' l' st', recoverOuter true false true fuel ⟨pre, a ++ chSemi :: b, false, false, sk⟩ c q len steps =
+      .ok ⟨⟨p', chSemi :: b, false, false, sk⟩, 1, l', st'⟩ := by
+  intro fuel
+  induction fuel with
+  | zero => intro a pre c q len steps _ h; omega
+  | succ f ih =>
+    intro a pre c q len steps ha hf
+    -- after a `)`: white space, one character
+    have after : ∀ (p1 a2 : List Byte) (q1 : Bool) (l1 st1 : Nat), (∀ x ∈ a2, x ≠ chSemi) → a2.length ≤ a.length →
+        ∃ p' l' st',
+          (if ((IS.ws ⟨p1, a2 ++ chSemi :: b, false, false, sk⟩).get).2.getD chRParen = chSemi then
+            Out.ok (⟨if true = true then ((IS.ws ⟨p1, a2 ++ chSemi :: b, false, false, sk⟩).get).1.putback chSemi
+                     else ((IS.ws ⟨p1, a2 ++ chSemi :: b, false, false, sk⟩).get).1, 1, l1 + 1, st1 + 1⟩ : LoopRes)
+          else recoverOuter true false true f ((IS.ws ⟨p1, a2 ++ chSemi :: b, false, false, sk⟩).get).1
+            (((IS.ws ⟨p1, a2 ++ chSemi :: b, false, false, sk⟩).get).2.getD chRParen)
+            (if (true && false && ((IS.ws ⟨p1, a2 ++ chSemi :: b, false, false, sk⟩).get).1.good &&
+                decide (((IS.ws ⟨p1, a2 ++ chSemi :: b, false, false, sk⟩).get).2.getD chRParen = chQuote)) = true then !q1 else q1)
+            (l1 + 1) (st1 + 1)) = .ok ⟨⟨p', chSemi :: b, false, false, sk⟩, 1, l', st'⟩ := by
+      intro p1 a2 q1 l1 st1 h2 hl2
+      obtain ⟨p2, a3, hsp, hl3, h3⟩ := skipSpaces_semi a2 p1 b h2
+      have hws : IS.ws ⟨p1, a2 ++ chSemi :: b, false, false, sk⟩ = ⟨p2, a3 ++ chSemi :: b, false, false, sk⟩ := by
+        simp [IS.ws, IS.good, hsp]
+      rw [hws]
+      cases a3 with
+      | nil =>
+        refine ⟨p2, l1 + 1, st1 + 1, ?_⟩
+        simp [IS.get, IS.good, IS.putback]
+      | cons y a4 =>
+        have hy := h3 y (by simp)
+        have hg : IS.get ⟨p2, (y :: a4) ++ chSemi :: b, false, false, sk⟩ = (⟨y :: p2, a4 ++ chSemi :: b, false, false, sk⟩, some y) := by
+          simp [IS.get, IS.good]
+        rw [hg]
+        simp only [Option.getD_some, hy, if_false, Bool.and_false, Bool.false_and, Bool.false_eq_true]
+        exact ih a4 (y :: p2) y q1 (l1 + 1) (st1 + 1) (fun z hz => h3 z (by simp [hz])) (by simp at hl3; omega)
+    unfold recoverOuter
+    simp only [IS.good, Bool.not_false, Bool.and_self, Bool.not_true, Bool.false_eq_true, if_false]
+    by_cases hc : c = chRParen
+    · subst hc
+      have hin : recoverInner true false (f + 1) ⟨pre, a ++ chSemi :: b, false, false, sk⟩ chRParen q len steps =
+          .ok (⟨pre, a ++ chSemi :: b, false, false, sk⟩, chRParen, q, false, len, steps) := by
+        unfold recoverInner; simp [IS.good]
+      rw [hin]
+      simp only [IS.good, Bool.not_false, Bool.and_self, Bool.false_eq_true, if_false, beq_self_eq_true, if_true, Bool.true_and]
+      exact after pre a q len steps ha (Nat.le_refl _)
+    · rcases recoverInner_first_semi a pre b sk c q len steps (f + 1) ha hc (by omega) with ⟨p', l', st', h⟩ | ⟨p', a2, l', st', h, h2, h3⟩
+      · rw [h]
+        exact ⟨p', l', st', by simp⟩
+      · rw [h]
+        simp only [IS.good, Bool.not_false, Bool.and_self, Bool.false_eq_true, if_false, beq_self_eq_true, if_true, Bool.true_and]
+        exact after p' a2 q l' st' h3 (by omega)
+
 /-- without it: when no `)` follows, the inner loop reads to the end of the input -/
 theorem recoverInner_runs_on (rest : List Byte) : ∀ (pre : List Byte) (sk : Bool) (c : Byte) (q : Bool) (len steps fuel : Nat),
     (∀ x ∈ rest, x ≠ chRParen) → c ≠ chRParen → rest.length + 2 ≤ fuel →
